@@ -146,24 +146,27 @@ ResCell(r, c, x) == IF IsS(r) THEN SVal(r, x) ELSE FVal(r, c, x)
 ResCols(r) == IF IsS(r) THEN {""} ELSE Cols(r)
 \* every comparison in which an aligned operand has no data (NaN in the data, a timestamp only the other operand has,
 \* a column only the other frame has) is false, under every fill method; where both have data a >= b is "not a < b"
+RdsFor == IF HasMulti(xs) THEN Readings ELSE {"row"}          \* the two readings of a frame's observation part for frames only
 CmpNoData == (done /\ Pair /\ "gt" \in OpsFor(fam, xs) /\ ~(IsScalar(A) /\ IsScalar(B))) =>
-    \A m \in OpsMethods : \A rd \in Readings :
-        LET I  == OpIndex(join, A, B)
-            a2 == OpsAlign(A, I, m, rd)
-            b2 == OpsAlign(B, I, m, rd)
-            res(op) == OpsBinOp(op, A, B, join, colpol, m, rd)
-        IN  \A x \in I : \A c \in ResCols(res("ge")) :
-                LET u == OpsSide("ge", a2, c, x)  w == OpsSide("ge", b2, c, x) IN
-                IF IsNaN(u) \/ IsNaN(w)
-                THEN \A op \in OpsCmp : ResCell(res(op), c, x) = VBool(FALSE)
-                ELSE /\ ResCell(res("ge"), c, x) = VBool(ResCell(res("lt"), c, x) = VBool(FALSE))
-                     /\ ResCell(res("le"), c, x) = VBool(ResCell(res("gt"), c, x) = VBool(FALSE))
+    \A m \in OpsMethods : \A rd \in RdsFor :
+        LET I   == OpIndex(join, A, B)
+            a2  == OpsAlign(A, I, m, rd)
+            b2  == OpsAlign(B, I, m, rd)
+            rgt == OpsBinOp("gt", A, B, join, colpol, m, rd)
+            rge == OpsBinOp("ge", A, B, join, colpol, m, rd)
+            rlt == OpsBinOp("lt", A, B, join, colpol, m, rd)
+            rle == OpsBinOp("le", A, B, join, colpol, m, rd)
+        IN  \A x \in I : \A c \in ResCols(rge) :
+                IF IsNaN(OpsSide("ge", a2, c, x)) \/ IsNaN(OpsSide("ge", b2, c, x))
+                THEN \A r \in {rgt, rge, rlt, rle} : ResCell(r, c, x) = VBool(FALSE)
+                ELSE /\ ResCell(rge, c, x) = VBool(ResCell(rlt, c, x) = VBool(FALSE))
+                     /\ ResCell(rle, c, x) = VBool(ResCell(rgt, c, x) = VBool(FALSE))
 \* a number as fill method leaves no gap: the sum of two timeseries has a value at every timestamp of the joint index
 FillNumber == (done /\ Pair /\ IsTs(A) /\ IsTs(B) /\ "add" \in OpsFor(fam, xs)) =>
     \A m \in {"v0", "v1"} : \A y \in ResCells(OpsBinOp("add", A, B, join, colpol, m, "row")) : IsV(y)
 \* as-of fill: at a timestamp both operands have with data nothing is filled (the plain cell), and nothing is ever infinite
 FillAsOf == (done /\ Pair /\ ~(IsScalar(A) /\ IsScalar(B))) =>
-    \A m \in OpsMethods : \A rd \in Readings : \A op \in OpsFor(fam, xs) \ {"pow"} : OpsPinned(op) =>
+    \A m \in OpsMethods \ {"none"} : \A rd \in RdsFor : \A op \in OpsFor(fam, xs) \ {"pow"} : OpsPinned(op) =>
         LET r == OpsBinOp(op, A, B, join, colpol, m, rd)
             p == OpsBinOp(op, A, B, join, colpol, "none", rd)
         IN  /\ Times(r) = OpIndex(join, A, B)
@@ -173,7 +176,7 @@ FillAsOf == (done /\ Pair /\ ~(IsScalar(A) /\ IsScalar(B))) =>
                        => ResCell(r, c, x) = ResCell(p, c, x)
 \* division by zero yields NaN also when the zero arrives by the fill method or stands in a LIST of denominators
 DivZeroFilled == (done /\ Pair /\ IsTs(B) /\ "div" \in OpsFor(fam, xs)) =>
-    \A m \in OpsMethods : \A rd \in Readings :
+    \A m \in OpsMethods : \A rd \in RdsFor :
         LET r  == OpsBinOp("div", A, B, join, colpol, m, rd)
             b2 == OpsAlign(B, Times(r), m, rd)
         IN  \A x \in Times(r) : \A c \in ResCols(r) : OpsSide("div", b2, c, x) = Zero => IsNaN(ResCell(r, c, x))
